@@ -393,8 +393,34 @@ def _coq_op(op):
     return {"commit": "OCommit", "revert": "ORevert", "reopen": "OReopen"}[k]
 
 
+def _stale_cut(inp):
+    """one-lock dirstate sequences: index of the first FAILED rename_one of a path that only the basis knows
+    (known finding C09-bzr-rename-failed-stale-inventory: the re-added entry stays in the cached inventory until
+    unlock).  The specification has no cached inventory, so model and implementation are compared up to that step
+    only; the oracle still sees the whole observation."""
+    if inp["fmt"] != "bzr" or not inp.get("one_lock"):
+        return None
+    from props import _c09_mirror as M
+    s = M.St("bzr")
+    for i, op in enumerate(inp["ops"]):
+        t = s.copy()
+        e = M.step(t, op)
+        if e == "Unmodelled":
+            return None
+        if (op[0] == "ren" and e is not None and M.path2id(s.inv, M.P(op[1])) is None
+                and any(b[0] == M.P(op[1]) for b in s.basis.values())):
+            return i
+        s = t if e is None else s
+        if e is not None:
+            M.step(s, op)        # (mkdir keeps its directory on a refusal)
+    return None
+
+
 def model_term(inp):
     ops = inp["ops"]
+    cut = _stale_cut(inp)
+    if cut is not None:
+        ops = ops[:cut]
     # the model's reopen is the identity, so the forced re-opens need no op of their own
     return f"run_case {_FMT[inp['fmt']]} [" + "; ".join(_coq_op(o) for o in ops) + "]"
 
@@ -417,6 +443,9 @@ def impl_obs(inp, obs):
     the modelled domain (the model prints OT "unmodelled" there and stops)."""
     if isinstance(obs, Err):
         return obs
+    stale = _stale_cut(inp)
+    if stale is not None:
+        return list(obs[:stale])
     cut, _ = _mirror_run(inp)
     if cut is None:
         return obs
@@ -486,13 +515,16 @@ def _gen_ops(rng, fmt, n, names, one_lock=False):
         if one_lock and fmt == "bzr":
             # inside one lock two more (reported) defects of the unchanged code become visible; the one-lock
             # sequences stay clear of them: add below an unversioned directory whose dirblock is still in memory
-            # (C09-bzr-add-under-removed) and a FAILED rename_one of a path that only the basis knows, which
-            # leaves the re-added entry in the cached inventory (C09-bzr-rename-failed-stale-inventory)
+            # (C09-bzr-add-under-removed); a FAILED rename_one of a path that only the basis knows leaves the
+            # re-added entry in the cached inventory (known finding C09-bzr-rename-failed-stale-inventory):
+            # such a sequence ends there
             if e == "NotVersionedError" and k in ("add", "mkdir", "sadd"):
                 continue
             if k == "ren" and e is not None and M.path2id(s.inv, M.P(op[1])) is None and any(
                     b[0] == M.P(op[1]) for b in s.basis.values()):
-                continue
+                ops.append(op)      # the comparison with the model ends here (see _stale_cut); the oracle goes on
+                ops.append(["reopen"])
+                break
         if e == "Unmodelled":
             if rng.random() < 0.9:
                 continue            # a few sequences end in an unmodelled step on purpose
@@ -540,6 +572,8 @@ _CORPUS_ONE_LOCK = [
 
 def corpus():
     out = [{"fmt": f, "ops": o} for f, o in _CORPUS]
+    out.append({"fmt": "bzr", "one_lock": True,                                      # C09-bzr-rename-failed-stale-inventory
+                "ops": [["put", "b", 1], ["add", "b"], ["commit"], ["rmk", "b"], ["put", "c", 2], ["ren", "b", "c"], ["reopen"]]})
     for fmt in ("bzr", "git"):
         for o in _CORPUS_ONE_LOCK:
             out.append({"fmt": fmt, "ops": _PRELUDE + o, "one_lock": True})
@@ -718,8 +752,8 @@ def finding_matches(fid, inp, obs, why):
     if fid == "C09-bzr-rename-removed-inconsistent":
         return fmt == "bzr" and cut is None and ops[i][0] == "ren" and e == "InconsistentDelta" and "InconsistentDelta" in why
     if fid == "C09-bzr-rename-failed-stale-inventory":
-        return (fmt == "bzr" and bool(inp.get("one_lock")) and "incoherent" in why and
-                any(o[0] == "ren" for o in ops[: i + 1]))
+        sc = _stale_cut(inp)
+        return fmt == "bzr" and sc is not None and sc <= i and "incoherent" in why
     if fid == "C09-git-revert-notadir":
         return fmt == "git" and cut_op == "revert" and cut == i and M.g_notadir(s) and "TransformRenameFailed" in why
     if fid == "C09-git-commit-dirified":
